@@ -103,3 +103,11 @@ package respondent
 //@   before select#1 assert expTime > 0 ==> timer_d(tq) == expTime
 //@   before select#1 assert expTime <= 0 ==> tq == nilQ
 //@   ensures sel("select#1") == 2 ==> result0 == nil && result1 == protocol.ErrRecvTimeout
+//@
+//@ func (*socket).OpenContext
+//@   ghost cl = s.closed at call:Lock#1
+//@   ensures cl ==> isnil(result0) && result1 == protocol.ErrClosed
+//@   ensures !cl ==> isnil(result1) && cast("*context", result0).s == s && has(s.contexts, cast("*context", result0)) && !cast("*context", result0).closed
+//@   ensures !cl ==> cast("*context", result0).bestEffort == s.defCtx.bestEffort
+//@   ensures !cl ==> cast("*context", result0).recvExpire == s.defCtx.recvExpire
+//@   ensures !cl ==> cast("*context", result0).sendExpire == s.defCtx.sendExpire
